@@ -621,7 +621,8 @@ fn gen_numkey(r: &mut Rng) -> String {
         0 => format!("+{}", v.abs()), 1 => format!("0{}", v.abs()), 2 => "-0".to_string(), 3 => format!("{}_0", v), 4 => format!(" {}", v),
         5 => (*r.pick(&["170141183460469231731687303715884105727", "170141183460469231731687303715884105728",
                         "-170141183460469231731687303715884105728", "-170141183460469231731687303715884105729",
-                        "99999999999999999999999", "18446744073709551616", "-18446744073709551616", "-", "+", "--1", "1e3", "0x", "0X00"])).to_string(),
+                        "99999999999999999999999", "18446744073709551616", "-18446744073709551616", "-18446744073709551615", "-9223372036854775809",
+                        "-9223372036854775808", "18446744073709551615", "-", "+", "--1", "1e3", "0x", "0X00"])).to_string(),
         _ => v.to_string(),
     }
 }
@@ -636,7 +637,17 @@ fn gen_j_plain(r: &mut Rng, depth: u32) -> J {
         2 | 3 | 4 => J::Str(gen_str_plain(r)),
         5 => match r.below(6) { 0 => J::Null, 1 => J::Bool(r.chance(1, 2)), _ => gen_number(r) },
         6 | 7 => { let n = r.below(4) as usize; J::Arr((0..n).map(|_| gen_j_plain(r, depth - 1)).collect()) }
-        _ => { let n = r.below(5) as usize; J::Obj((0..n).map(|_| (gen_str_plain(r), gen_j_plain(r, depth - 1))).collect()) }
+        _ => {
+            let n = r.below(5) as usize;
+            let mut l: Vec<(String, J)> = (0..n).map(|_| (gen_str_plain(r), gen_j_plain(r, depth - 1))).collect();
+            if r.chance(1, 6) { // several spellings of one integer / one byte string: they collide as metadata keys
+                let v = r.below(100);
+                for k in [format!("{}", v), format!("+{}", v), format!("0{}", v), format!("0x{:02x}", v), format!("0x{:02X}", v)] {
+                    if r.chance(2, 3) { l.push((k, gen_j_plain(r, 0))); }
+                }
+            }
+            J::Obj(l)
+        }
     }
 }
 /// JSON in (or near) the detailed metadata schema
@@ -683,6 +694,27 @@ fn gen_md(r: &mut Rng, depth: u32, textkeys: bool) -> M {
                 l.push((key, gen_md(r, depth - 1, textkeys)));
             }
             if textkeys && r.chance(2, 3) { l.sort_by(|a, b| match (&a.0, &b.0) { (M::Text(x), M::Text(y)) => x.as_bytes().cmp(y.as_bytes()), _ => std::cmp::Ordering::Equal }); }
+            M::Map(l)
+        }
+    }
+}
+/// metadata inside the NoConversions schema (text keys, no bytes, integers JSON can carry); maps sorted or shuffled
+fn gen_md_noconv(r: &mut Rng, depth: u32, sorted: bool) -> M {
+    let k = if depth == 0 { r.below(5) } else { r.below(10) };
+    match k {
+        0 | 1 => M::Int({ let v = gen_i128_edge(r); if v < i64::MIN as i128 || v > u64::MAX as i128 { -1 } else { v } }),
+        2 | 3 | 4 => M::Text({ let mut s = gen_str_plain(r); while s.len() > 64 { s.pop(); } s }),
+        5 | 6 => { let n = r.below(4) as usize; M::List((0..n).map(|_| gen_md_noconv(r, depth - 1, sorted)).collect()) }
+        _ => {
+            let n = 1 + r.below(5) as usize;
+            let mut l: Vec<(M, M)> = Vec::new();
+            for _ in 0..n {
+                let key = M::Text({ let mut s = gen_str_plain(r); while s.len() > 64 { s.pop(); } s });
+                if l.iter().any(|(k, _)| *k == key) { continue; }
+                l.push((key, gen_md_noconv(r, depth - 1, sorted)));
+            }
+            l.sort_by(|a, b| match (&a.0, &b.0) { (M::Text(x), M::Text(y)) => x.as_bytes().cmp(y.as_bytes()), _ => std::cmp::Ordering::Equal });
+            if !sorted && l.len() > 1 { let i = r.below(l.len() as u64 - 1) as usize; l.swap(i, i + 1); if r.chance(1, 2) { l.reverse(); } }
             M::Map(l)
         }
     }
@@ -796,7 +828,7 @@ fn emit_line(out: &mut Out, line: &str) {
 fn gen(dir: &str) {
     let seed = seed_from_env();
     let mut r = Rng::new(seed ^ 0xC17);
-    let scale: u64 = if is_thorough() { 12 } else { 1 };
+    let scale: u64 = if is_thorough() { 50 } else { 1 };
     let mut out = Out::new(dir);
     // typed-value stream: encodings produced by the C01 schema walk (model side), if present
     let path = format!("{}/model_cases.txt", dir);
@@ -830,7 +862,7 @@ fn gen(dir: &str) {
         let sc = i % 3;
         let d = r.below(4) as u32;
         let tk = sc == 0 && r.chance(5, 6);
-        let m = gen_md(&mut r, d, tk);
+        let m = if sc == 0 && i % 2 == 1 { let sorted = r.chance(1, 2); gen_md_noconv(&mut r, d, sorted) } else { gen_md(&mut r, d, tk) };
         emit_line(&mut out, &format!("m2j {} {}", sc, m_tokens(&m)));
     }
     // chunk helpers
@@ -865,7 +897,7 @@ fn gen(dir: &str) {
         emit_json_case(&mut out, "j2p", "1", &j);
     }
     // hand-written serde string forms
-    for _ in 0..80 * scale {
+    for _ in 0..240 * scale {
         let ty = *r.pick(&["bignum", "int", "bigint", "hash28", "hash32", "assetname"]);
         let j = match r.below(10) {
             0 => gen_number(&mut r),
@@ -873,6 +905,8 @@ fn gen(dir: &str) {
             2 | 3 => J::Str(gen_numkey(&mut r)),
             4 => J::Str(gen_bigint(&mut r)),
             5 => { let n = *r.pick(&[0usize, 1, 27, 28, 29, 31, 32, 33]); J::Str(hex::encode(r.bytes(n))) }
+            8 => J::Str(match ty { "hash28" => hex::encode(r.bytes(28)), "hash32" => hex::encode(r.bytes(32)), "assetname" => { let n = r.below(33) as usize; hex::encode(r.bytes(n)) }
+                                   "bigint" => gen_bigint(&mut r), "int" => { let v = gen_i128_edge(&mut r); v.to_string() } _ => r.u64_edge().to_string() }),
             6 => J::Str(gen_hexish(&mut r)),
             7 => J::Str(hex::encode(r.bytes(if ty == "hash32" { 32 } else { 28 })).to_uppercase()),
             _ => J::Str(r.u64_edge().to_string()),
